@@ -341,6 +341,24 @@ func ruleC20_2(c *Ctx) {
 				c.check(strings.HasPrefix(kind, "StringArray"), R, "cmd."+n, "flag --"+k+" takes each value verbatim", cc.global.Pos(), kind, "flag --"+k+" is registered with "+kind+": pflag parses StringSlice values as CSV, so a file name that contains a comma (foo.c,v) is split into several paths")
 			}
 		}
+		// one destination variable per flag: pflag's slice and array values replace the destination on the first Set of
+		// each flag object and append only afterwards, so two flags that share a destination overwrite each other
+		byVar := map[string][]string{}
+		for k, v := range cc.flags {
+			if v != "" {
+				byVar[v] = append(byVar[v], k)
+			}
+		}
+		var shared []string
+		for v, ks := range byVar {
+			if len(ks) > 1 {
+				sort.Strings(ks)
+				shared = append(shared, v+" <- --"+strings.Join(ks, ", --"))
+			}
+		}
+		sort.Strings(shared)
+		c.check(len(shared) == 0, R, "cmd."+n, "every flag has a destination variable of its own", cc.global.Pos(), fmt.Sprintf("%d flags, %d variables", len(cc.flags), len(byVar)),
+			"several flags are bound to one variable ("+strings.Join(shared, "; ")+"): the first use of the second name replaces what was collected under the first, so values (keys) given on the command line silently drop out")
 		for _, k := range c20Required[n] {
 			c.check(cc.required[k], R, "cmd."+n, "flag --"+k+" is required", cc.global.Pos(), "marked required", "flag --"+k+" is not marked required")
 		}
